@@ -233,6 +233,7 @@ func NewPool(kt string, code uint, variant string) *Pool {
 	rec("R01~v", "r0", c("r1"), c("v0"), invalidPatch, nil, setDelta(sidetree.DeltaInvalid), "legit", "")
 	rec("R01~a", "r0", c("r1"), c("v0"), failingPatch, nil, setDelta(sidetree.DeltaApplyFails), "legit", "")
 	rec("R01~w", "r0", c("r1"), c("v0"), svc("r01w"), late, nil, "legit", "")
+	rec("R01i", "r0", c("r1"), c("v0"), svc("r01i"), early, nil, "legit", "") // explicit window containing the grid
 	rec("R10", "r1", c("r0"), c("u0"), svc("r10"), nil, nil, "legit", "")
 	rec("R20", "r2", c("r0"), c("u0"), svc("r20"), nil, nil, "legit", "")
 	// self loop: the parser refuses it in every mode
